@@ -24,6 +24,9 @@ macro_rules! suite {
 fn mk_test(inst: u32, fail: bool) -> crate::tksf::TestKsf {
     crate::tksf::TestKsf { inst, fail }
 }
+fn mk_zst(_inst: u32, _fail: bool) -> crate::tksf::ZstKsf {
+    crate::tksf::ZstKsf
+}
 fn mk_identity(_inst: u32, _fail: bool) -> opaque_ke::ksf::Identity {
     opaque_ke::ksf::Identity
 }
@@ -76,6 +79,8 @@ suite!(p256_p256_i, p256::NistP256, p256::NistP256, opaque_ke::ksf::Identity, su
 suite!(p384_p384_i, p384::NistP384, p384::NistP384, opaque_ke::ksf::Identity, super::mk_identity, "P384-SHA384/P-384/identity", "P384-SHA384", "P-384", "identity");
 suite!(p521_p521_i, p521::NistP521, p521::NistP521, opaque_ke::ksf::Identity, super::mk_identity, "P521-SHA512/P-521/identity", "P521-SHA512", "P-521", "identity");
 suite!(rist_x25519_i, opaque_ke::Ristretto255, opaque_ke::Curve25519, opaque_ke::ksf::Identity, super::mk_identity, "ristretto255-SHA512/Curve25519/identity", "ristretto255-SHA512", "Curve25519", "identity");
+suite!(rist_rist_z, opaque_ke::Ristretto255, opaque_ke::Ristretto255, crate::tksf::ZstKsf, super::mk_zst, "ristretto255-SHA512/ristretto255/zst", "ristretto255-SHA512", "ristretto255", "zst");
+suite!(p384_p256_z, p384::NistP384, p256::NistP256, crate::tksf::ZstKsf, super::mk_zst, "P384-SHA384/P-256/zst", "P384-SHA384", "P-256", "zst");
 suite!(rist_rist_a, opaque_ke::Ristretto255, opaque_ke::Ristretto255, argon2::Argon2<'static>, super::mk_argon, "ristretto255-SHA512/ristretto255/argon2", "ristretto255-SHA512", "ristretto255", "argon2");
 suite!(p256_p256_a, p256::NistP256, p256::NistP256, argon2::Argon2<'static>, super::mk_argon, "P256-SHA256/P-256/argon2", "P256-SHA256", "P-256", "argon2");
 suite!(p521_x25519_a, p521::NistP521, opaque_ke::Curve25519, argon2::Argon2<'static>, super::mk_argon, "P521-SHA512/Curve25519/argon2", "P521-SHA512", "Curve25519", "argon2");
@@ -107,6 +112,8 @@ pub fn all() -> Vec<Box<dyn Suite>> {
         Box::new(p384_p384_i::S),
         Box::new(p521_p521_i::S),
         Box::new(rist_x25519_i::S),
+        Box::new(rist_rist_z::S),
+        Box::new(p384_p256_z::S),
         Box::new(rist_rist_a::S),
         Box::new(p256_p256_a::S),
         Box::new(p521_x25519_a::S),
